@@ -1278,7 +1278,7 @@ fn at_process_type(input: Span) -> IResult<Span, Type> {
 /// field, nothing but whitespace separates it from the parentheses (the grouping form allows no
 /// comments: a comment after `(` is only skipped in front of a leading `|` of a union, by
 /// `type_definition` itself) and no trailing comma follows it.
-fn paren_type(input: Span) -> IResult<Span, Type> {
+fn paren_type(input: Span, group_before_process: bool) -> IResult<Span, Type> {
     let (after_open, _) = char('(')(input)?;
     let (content, _) = wsc(after_open)?;
     // `field_type_list`, remembering where the first field ended.
@@ -1317,10 +1317,8 @@ fn paren_type(input: Span) -> IResult<Span, Type> {
             }),
         ));
     }
-    if let Ok(result) = paren_process_type(input) {
-        return Ok(result);
-    }
     // Grouping parentheses `( type )` around the single positional field.
+    let mut group = None;
     if let (Some(first_end), [FieldType::Field { name: None, .. }]) = (first_end, &fields[..]) {
         let (type_start, _) = ws0(after_open)?;
         let same_start = type_start.location_offset() == content.location_offset()
@@ -1329,8 +1327,21 @@ fn paren_type(input: Span) -> IResult<Span, Type> {
             && let Ok((rest, _)) = pair(ws0, char(')'))(first_end)
             && let Some(FieldType::Field { type_def, .. }) = fields.pop()
         {
-            return Ok((rest, type_def));
+            group = Some((rest, type_def));
         }
+    }
+    // The grouping and the parenthesised process form are tried in the order the caller's
+    // alternatives had them (`base_type`: process form first; function input/output: grouping
+    // first). No text is both, so the order cannot be observed; keeping it makes this function the
+    // old alternatives verbatim, parsed once.
+    if group_before_process && let Some(result) = group {
+        return Ok(result);
+    }
+    if let Ok(result) = paren_process_type(input) {
+        return Ok(result);
+    }
+    if let Some(result) = group {
+        return Ok(result);
     }
     Err(nom::Err::Error(nom::error::Error::new(
         input,
@@ -1512,7 +1523,8 @@ fn function_type(input: Span) -> IResult<Span, Type> {
 fn function_input_type(input: Span) -> IResult<Span, Type> {
     alt((
         named_partial_type,
-        paren_type, // unnamed partial type, `(@… -> …)`, or grouping parentheses: one parse
+        // unnamed partial type, grouping parentheses, or `(@… -> …)`: one parse
+        |input| paren_type(input, true),
         tuple_type,
         resource_type,
         type_cycle,
@@ -1526,7 +1538,8 @@ fn function_input_type(input: Span) -> IResult<Span, Type> {
 fn function_output_type(input: Span) -> IResult<Span, Type> {
     alt((
         named_partial_type,
-        paren_type, // unnamed partial type, `(@… -> …)`, or grouping parentheses: one parse
+        // unnamed partial type, grouping parentheses, or `(@… -> …)`: one parse
+        |input| paren_type(input, true),
         tuple_type,
         resource_type,
         type_cycle,
@@ -1541,7 +1554,8 @@ fn base_type(input: Span) -> IResult<Span, Type> {
     alt((
         tuple_type,
         named_partial_type,
-        paren_type, // unnamed partial type, `(@… -> …)`, or grouping parentheses: one parse
+        // unnamed partial type, `(@… -> …)`, or grouping parentheses: one parse
+        |input| paren_type(input, false),
         resource_type, // Must come before type_identifier to match \Resource
         type_cycle,
         at_process_type,
